@@ -230,6 +230,28 @@ def random_piece(rng, c):
     return pc
 
 
+def fixture_pieces(rng):
+    """Quantised slices of the repository's fixtures as single-track pieces (default grids, 4/4, whole bars)."""
+    from harness import fixtures
+    out = []
+    for sc in fixtures.slices("quantised"):
+        notes = [{"p": n["p"], "s": n["s"], "e": n["e"], "v": n["v"]} for n in sc["notes"] if 21 <= n["p"] <= 108]
+        # one channel per track: keep the notes of the most frequent channel, drop same-pitch overlaps
+        busy, keep = {}, []
+        for n in sorted(notes, key=lambda x: x["s"]):
+            if busy.get(n["p"], -1) > n["s"] or (n["e"] - n["s"]) not in (4, 6, 8, 9, 12, 16, 18, 24, 36) or n["s"] % 2:
+                continue
+            busy[n["p"]] = n["e"]
+            keep.append(n)
+        if not keep:
+            continue
+        end = -(-max(n["e"] for n in keep) // 96) * 96
+        c = random_cfg(rng)
+        c.update(ppqn=24, tracks=1, pitLo=21, pitHi=108, steps=DEFAULT_STEPS, values=[4, 6, 8, 9, 12, 16, 18, 24, 36])
+        out.append((c, {"tracks": [keep], "sigs": [], "end": end, "cap": True, "bars": True}))
+    return out
+
+
 def with_nbins(c):
     c = dict(c)
     c["nbins"] = len(c["bins"])
@@ -255,6 +277,8 @@ def run_c01(ctx, g):
             f = flagsets[k % 16]
             c["running"], c["fuseTrk"], c["fuseVal"], c["fuseVel"] = f
             cases.append((len(cases), c, random_piece(rng, c)))
+    if ctx.thorough and not ctx.replay:
+        cases += [(len(cases) + i, c, pc) for i, (c, pc) in enumerate(fixture_pieces(rng))]
     obs = pmap(roundtrip, cases, chunk=200)
     for i, o in enumerate(obs):
         o["id"] = i
@@ -628,6 +652,10 @@ def run_c03(ctx, g):
                 continue
             # cut fragments only have allowed note values after re-quantisation
             cases.append((len(cases), c, pc, cuts, True if crossing else rng.choice([True, False, "split"])))
+    if ctx.thorough and not ctx.replay:
+        for c, pc in fixture_pieces(rng):
+            lines = list(range(96, pc["end"], 96))
+            cases.append((len(cases), c, pc, [b for b in lines if rng.random() < .5], True))
     obs = pmap(chunked, cases, chunk=100)
     for i, o in enumerate(obs):
         o["id"] = i
